@@ -162,6 +162,7 @@ func (n *node[T]) find(pattern string) *node[T] {
 func (n *node[T]) clean(prefix string) {
 	if len(prefix) == 0 {
 		n.children = n.children[:0]
+		n.buildIndexes()
 		return
 	}
 
